@@ -328,10 +328,12 @@ pub(crate) fn value_cmp(lhs: &dyn ValueView, rhs: &dyn ValueView) -> Option<Orde
     }
 
     if let (Some(x), Some(y)) = (lhs.as_object(), rhs.as_object()) {
-        return x
-            .iter()
-            .map(|(k, v)| (k, ValueViewCmp(v)))
-            .partial_cmp(y.iter().map(|(k, v)| (k, ValueViewCmp(v))));
+        // the iteration order of an object is unspecified: compare the entries in key order
+        let mut x: Vec<_> = x.iter().map(|(k, v)| (k, ValueViewCmp(v))).collect();
+        let mut y: Vec<_> = y.iter().map(|(k, v)| (k, ValueViewCmp(v))).collect();
+        x.sort_by(|a, b| a.0.cmp(&b.0));
+        y.sort_by(|a, b| a.0.cmp(&b.0));
+        return x.partial_cmp(&y);
     }
 
     None
